@@ -1678,6 +1678,200 @@ def _n86(fn):
     return False
 
 
+def _n87(fn):
+    """N87 construction deferred behind a sentinel: `v = None; if A: v = X elif B: <other locals> ..; if v is None: v = E(<other locals>)`
+    -> every arm that does not bind v (and does not leave) ends with `v = E(..)`; the sentinel and the deferred statement go"""
+    def leaves(blk):
+        return bool(blk) and isinstance(blk[-1], (ast.Return, ast.Raise, ast.Continue, ast.Break))
+
+    def binds(blk, v):
+        return any(isinstance(n, ast.Name) and n.id == v and not isinstance(n.ctx, ast.Load) for x in blk for n in ast.walk(x))
+    for holder, fld, blk in list(_blocks(fn)):
+        for j, s2 in enumerate(blk):
+            if not (isinstance(s2, ast.If) and not s2.orelse and len(s2.body) == 1 and isinstance(s2.body[0], ast.Assign)
+                    and len(s2.body[0].targets) == 1 and isinstance(s2.body[0].targets[0], ast.Name)
+                    and isinstance(s2.test, ast.Compare) and len(s2.test.ops) == 1 and isinstance(s2.test.ops[0], ast.Is)
+                    and isinstance(s2.test.left, ast.Name) and isinstance(s2.test.comparators[0], ast.Constant)
+                    and s2.test.comparators[0].value is None and s2.test.left.id == s2.body[0].targets[0].id):
+                continue
+            v = s2.test.left.id
+            if j == 0 or not isinstance(blk[j - 1], ast.If):
+                continue
+            chain = blk[j - 1]
+            inits = [k for k in range(j - 1) if isinstance(blk[k], ast.Assign) and len(blk[k].targets) == 1 and isinstance(blk[k].targets[0], ast.Name)
+                     and blk[k].targets[0].id == v and isinstance(blk[k].value, ast.Constant) and blk[k].value.value is None]
+            if len(inits) != 1:
+                continue
+            k0 = inits[0]
+            if any(isinstance(n, ast.Name) and n.id == v for x in blk[k0 + 1:j - 1] for n in ast.walk(x)):
+                continue
+            if any(isinstance(n, ast.Name) and n.id == v for n in ast.walk(chain.test)):
+                continue
+            build = s2.body[0]
+            arms = []
+
+            def collect(node):
+                arms.append(node.body)
+                if len(node.orelse) == 1 and isinstance(node.orelse[0], ast.If):
+                    collect(node.orelse[0])
+                elif node.orelse:
+                    arms.append(node.orelse)
+                else:
+                    node.orelse = []
+                    arms.append(node.orelse)
+            collect(chain)
+            for arm in arms:
+                if leaves(arm) or binds(arm, v):
+                    continue
+                arm.append(copy.deepcopy(build))
+            del blk[j]
+            del blk[k0]
+            ast.fix_missing_locations(fn)
+            return True
+    return False
+
+
+def _n88(fn):
+    """N88 the other spelling of N87: `s = None; if A: s = T1 elif B: s = T2 .. [elif C: <leave>]; v = X; if s is not None: v = E(s)`
+    -> arms that bind s end with `v = E(T)`, the others (and the missing else) with `v = X`; `f(*(a, b), c)` is `f(a, b, c)`"""
+    class Star(ast.NodeTransformer):
+        def visit_Call(self, n):
+            self.generic_visit(n)
+            if any(isinstance(a, ast.Starred) and isinstance(a.value, ast.Tuple) for a in n.args):
+                args = []
+                for a in n.args:
+                    if isinstance(a, ast.Starred) and isinstance(a.value, ast.Tuple):
+                        args += list(a.value.elts)
+                    else:
+                        args.append(a)
+                n.args = args
+            return n
+
+    def leaves(blk):
+        return bool(blk) and isinstance(blk[-1], (ast.Return, ast.Raise, ast.Continue, ast.Break))
+    for holder, fld, blk in list(_blocks(fn)):
+        for j in range(2, len(blk)):
+            s2 = blk[j]
+            if not (isinstance(s2, ast.If) and not s2.orelse and len(s2.body) == 1 and isinstance(s2.body[0], ast.Assign)
+                    and len(s2.body[0].targets) == 1 and isinstance(s2.body[0].targets[0], ast.Name)
+                    and isinstance(s2.test, ast.Compare) and len(s2.test.ops) == 1 and isinstance(s2.test.ops[0], ast.IsNot)
+                    and isinstance(s2.test.left, ast.Name) and isinstance(s2.test.comparators[0], ast.Constant)
+                    and s2.test.comparators[0].value is None):
+                continue
+            sen, v = s2.test.left.id, s2.body[0].targets[0].id
+            dflt = blk[j - 1]
+            if not (isinstance(dflt, ast.Assign) and len(dflt.targets) == 1 and isinstance(dflt.targets[0], ast.Name) and dflt.targets[0].id == v
+                    and isinstance(blk[j - 2], ast.If) and sen != v):
+                continue
+            chain = blk[j - 2]
+            inits = [k for k in range(j - 2) if isinstance(blk[k], ast.Assign) and len(blk[k].targets) == 1 and isinstance(blk[k].targets[0], ast.Name)
+                     and blk[k].targets[0].id == sen and isinstance(blk[k].value, ast.Constant) and blk[k].value.value is None]
+            if len(inits) != 1:
+                continue
+            k0 = inits[0]
+            if any(isinstance(n, ast.Name) and n.id in (sen, v) for x in blk[k0 + 1:j - 2] for n in ast.walk(x)):
+                continue
+            # the sentinel is used nowhere else
+            inside = {id(n) for x in (chain, s2, blk[k0]) for n in ast.walk(x)}
+            if any(isinstance(n, ast.Name) and n.id == sen and id(n) not in inside for n in ast.walk(fn)):
+                continue
+            arms = []
+
+            def collect(node):
+                arms.append(node.body)
+                if len(node.orelse) == 1 and isinstance(node.orelse[0], ast.If):
+                    collect(node.orelse[0])
+                elif node.orelse:
+                    arms.append(node.orelse)
+                else:
+                    node.orelse = []
+                    arms.append(node.orelse)
+            collect(chain)
+            ok = True
+            plan = []
+            for arm in arms:
+                if leaves(arm):
+                    plan.append(None)
+                    continue
+                stores = [x for x in arm if any(isinstance(n, ast.Name) and n.id == sen and not isinstance(n.ctx, ast.Load) for n in ast.walk(x))]
+                if not stores:
+                    plan.append('default')
+                elif len(stores) == 1 and stores[0] is arm[-1] and isinstance(arm[-1], ast.Assign) and len(arm[-1].targets) == 1 \
+                        and isinstance(arm[-1].targets[0], ast.Name):
+                    plan.append('bind')
+                else:
+                    ok = False
+            if not ok:
+                continue
+            for arm, what in zip(arms, plan):
+                if what == 'default':
+                    arm.append(copy.deepcopy(dflt))
+                elif what == 'bind':
+                    val = arm[-1].value
+                    b = copy.deepcopy(s2.body[0])
+                    b = _Subst(lambda n: isinstance(n, ast.Name) and n.id == sen and isinstance(n.ctx, ast.Load), lambda n, val=val: copy.deepcopy(val)).visit(b)
+                    b = Star().visit(b)
+                    arm[-1] = b
+            del blk[j]
+            del blk[j - 1]
+            del blk[k0]
+            ast.fix_missing_locations(fn)
+            return True
+    return False
+
+
+def _n89(fn, counter):
+    """N89 a counting while loop over a sequence: `i = 0; while i < len(XS): BODY; i += 1` (BODY reads XS[i], never continues, does
+    not touch i or XS otherwise; i not read after the loop) -> `for i, e in enumerate(XS): BODY[XS[i] := e]`"""
+    for holder, fld, blk in list(_blocks(fn)):
+        for j in range(1, len(blk)):
+            w, init = blk[j], blk[j - 1]
+            if not (isinstance(w, ast.While) and not w.orelse and isinstance(w.test, ast.Compare) and len(w.test.ops) == 1
+                    and isinstance(w.test.ops[0], ast.Lt) and isinstance(w.test.left, ast.Name)
+                    and isinstance(w.test.comparators[0], ast.Call) and isinstance(w.test.comparators[0].func, ast.Name)
+                    and w.test.comparators[0].func.id == 'len' and len(w.test.comparators[0].args) == 1 and _is_chain(w.test.comparators[0].args[0])):
+                continue
+            i = w.test.left.id
+            xs = w.test.comparators[0].args[0]
+            xt = ast.unparse(xs)
+            if not (isinstance(init, ast.Assign) and len(init.targets) == 1 and isinstance(init.targets[0], ast.Name) and init.targets[0].id == i
+                    and isinstance(init.value, ast.Constant) and init.value.value == 0):
+                continue
+            if not (w.body and isinstance(w.body[-1], ast.AugAssign) and isinstance(w.body[-1].target, ast.Name) and w.body[-1].target.id == i
+                    and isinstance(w.body[-1].op, ast.Add) and isinstance(w.body[-1].value, ast.Constant) and w.body[-1].value.value == 1):
+                continue
+            body = w.body[:-1]
+            if any(isinstance(n, ast.Continue) for x in body for n in ast.walk(x)):
+                continue
+            if any(isinstance(n, ast.Name) and n.id == i and not isinstance(n.ctx, ast.Load) for x in body for n in ast.walk(x)):
+                continue
+            after = [n for x in blk[j + 1:] for n in ast.walk(x) if isinstance(n, ast.Name) and n.id == i]
+            if after:
+                continue
+            # XS is only read, and only as XS[i] / len(XS)
+            bad = False
+            for x in body:
+                for n in ast.walk(x):
+                    if isinstance(n, ast.Call) and isinstance(n.func, ast.Attribute) and ast.unparse(n.func.value) == xt:
+                        bad = True
+                    if isinstance(n, ast.Subscript) and ast.unparse(n.value) == xt and not isinstance(n.ctx, ast.Load):
+                        bad = True
+            if bad:
+                continue
+            counter[0] += 1
+            e = '_elem%d' % counter[0]
+            for x in body:
+                _Subst(lambda n: isinstance(n, ast.Subscript) and isinstance(n.ctx, ast.Load) and ast.unparse(n.value) == xt
+                       and isinstance(n.slice, ast.Name) and n.slice.id == i, lambda n, e=e: ast.Name(e, ast.Load())).visit(x)
+            loop = ast.For(ast.Tuple([ast.Name(i, ast.Store()), ast.Name(e, ast.Store())], ast.Store()),
+                           ast.Call(ast.Name('enumerate', ast.Load()), [xs], []), body or [ast.Pass()], [], None)
+            ast.copy_location(loop, w)
+            ast.fix_missing_locations(loop)
+            blk[j - 1:j + 1] = [loop]
+            return True
+    return False
+
+
 def pre_normalize(tree: ast.Module) -> ast.Module:
     tree = _n71(tree)
     tree = _n77(tree)
@@ -1696,6 +1890,9 @@ def pre_normalize(tree: ast.Module) -> ast.Module:
                      counter)
     for fn in [n for n in ast.walk(tree) if isinstance(n, (ast.FunctionDef, ast.AsyncFunctionDef))]:
         _n83(fn)
+        _n89(fn, counter)
+        _n87(fn)
+        _n88(fn)
         _n86(fn)
         _n85(fn, counter)
         _n68(fn)
